@@ -12,7 +12,7 @@ def _miss(v):
     return v is None or (isinstance(v, float) and v != v)
 
 
-DATA_CARRIERS = ["f64", "list_none", "list_nan", "tuple_nan", "f32", "int", "masked_nan", "masked_junk", "masked_mixed", "series",
+DATA_CARRIERS = ["f64", "list_none", "list_nan", "tuple_nan", "f32", "int", "masked_nan", "masked_junk", "masked_mixed", "masked_int", "series",
                  "series_shifted", "dask", "object"]
 TIME_CARRIERS = ["dt64ns", "dt64us", "dt64ms", "dt64s", "list_datetime", "list_timestamp", "dtindex", "series",
                  "dtindex_utc", "series_utc", "epoch_list", "epoch_int", "epoch_float"]
@@ -21,7 +21,10 @@ SPAN_CARRIERS = ["list", "tuple"]
 
 def data_applicable(kind, xs):
     if kind == "int":
-        return all((not _miss(v)) and float(v) == int(v) for v in xs) and len(xs) > 0
+        return all((not _miss(v)) and abs(float(v)) < 2 ** 53 and float(v) == int(v) for v in xs) and len(xs) > 0
+    if kind == "masked_int":
+        # integer-dtype masked array with an explicit mask (packed netCDF variables look like this)
+        return len(xs) > 0 and all(_miss(v) or (abs(float(v)) < 2 ** 53 and float(v) == int(v)) for v in xs)
     if kind == "f32":
         # only when the values survive the narrowing unchanged (same logical series)
         return all(_miss(v) or float(np.float32(v)) == float(v) for v in xs)
@@ -49,6 +52,10 @@ def data(xs, kind="f64", junk=None):
         j = junk if junk is not None else 0.0
         return np.ma.MaskedArray(np.array([j if _miss(v) else float(v) for v in xs], dtype=np.float64),
                                  mask=[_miss(v) for v in xs])
+    if kind == "masked_int":
+        j = int(junk) if junk is not None and abs(junk) < 2 ** 31 else -9999
+        return np.ma.MaskedArray(np.array([j if _miss(v) else int(v) for v in xs], dtype=np.int64),
+                                 mask=np.array([_miss(v) for v in xs], dtype=bool))
     if kind == "masked_mixed":
         # every other missing value is masked (finite junk underneath), the rest are plain unmasked NaN
         j = junk if junk is not None else 0.0
